@@ -5,6 +5,14 @@ import IdenaModel.Drivers.Util
 Op lines (times in ms since the trackers were started; `T` = push type of the lane):
 `new <maxPending> <asFound 0|1> <T>:<delay>:<cap> …` · `ann T p h` · `arr T h` · `tick t` · `loop T` · `gc T` · `dlv T` ·
 `exp T h` · `fgt T h` · `state T`.  Outputs `kind:type:peer:hash:time`.
+Burst ops (full bounded queue of the manager): `mqcap N` · `annq T p h` (announcement while the consumer of
+`PushPullManager.requests` is stalled) · `drainq` (the consumer takes everything).
+
+Bounded queues, as found in the unchanged code, stated here as executable glue and compared on the burst scenarios (the
+proved model's queues are unbounded): (1) `makeRequest` drops the request when the manager's channel holds `mqcap`
+requests, but `addPush` bumps the counter and registers the pull all the same — the driver runs the model's `announce`
+unchanged and only withholds the emitted request from the queue; (2) the tracker loop's send blocks on its full
+channel and loses nothing — the harness op `loop` with a stalled consumer is the same model event `loop`.
 
 Glue that is not in the model: the harness op `loop` lets the real goroutine run until it is parked in `Sleep` again,
 so the driver repeats the model's one-iteration event `loop` until the lane's loop sleeps again (bounded; `diverge`
@@ -66,7 +74,14 @@ def parseLane (mp : Nat) (af : Bool) (tok : String) : Option Lane :=
     some { typ := ty, cfg := { delay := dl, cap := cp, maxPending := mp, asFound := af }, st := init }
   | _ => none
 
-def stepLine (n : Node) (line : String) : Node × String :=
+structure DSt where
+  node : Node := []
+  /-- content of `PushPullManager.requests` while its consumer is stalled (newest first) -/
+  mq : List (Nat × Nat × Nat) := []
+  mqLen : Nat := 0
+  mqCap : Nat := 5000
+
+def stepNode (n : Node) (line : String) : Node × String :=
   let ev (typ : Nat) (e : Ev) : Node × String :=
     match getLane n typ with
     | none => (n, "bad-op")
@@ -120,7 +135,34 @@ def stepLine (n : Node) (line : String) : Node × String :=
       | none => (n, "bad-op")
   | _ => (n, "bad-op")
 
+def stepLine (d : DSt) (line : String) : DSt × String :=
+  match splitSp line with
+  | ["mqcap", c] => match c.toNat? with
+    | some c => ({ d with mqCap := c }, "ok")
+    | none => (d, "bad-op")
+  | ["annq", ty, p, h] =>
+    match ty.toNat?, p.toNat?, h.toNat? with
+    | some ty, some p, some h =>
+      match getLane d.node ty with
+      | none => (d, "bad-op")
+      | some _ =>
+        let r := nodeStep d.node ty (.announce p h)
+        -- makeRequest: queued if there is room, skipped otherwise; the state change is the same
+        let d' := r.2.foldl (fun (acc : DSt) (x : Nat × Out) =>
+          if acc.mqLen < acc.mqCap then
+            { acc with mq := (x.1, match x.2 with | .imm p h _ => (p, h) | .dec p h _ => (p, h) | .fwd p h _ => (p, h)) :: acc.mq,
+                       mqLen := acc.mqLen + 1 }
+          else acc) { d with node := r.1 }
+        match getLane d'.node ty with
+        | some l => (d', s!"M={d'.mqLen} | {sizes l.st}")
+        | none => (d, "bad-op")
+    | _, _, _ => (d, "bad-op")
+  | ["drainq"] =>
+    let items := d.mq.reverse.map fun x => s!"req:{x.1}:{x.2.1}:{x.2.2}"
+    ({ d with mq := [], mqLen := 0 }, s!"n={d.mqLen} " ++ " ".intercalate items)
+  | _ => let r := stepNode d.node line; ({ d with node := r.1 }, r.2)
+
 end IdenaModel.Drv.C20
 
 def main : IO Unit :=
-  IdenaModel.Drv.runDriver ([] : IdenaModel.PushPull.Node) IdenaModel.Drv.C20.stepLine
+  IdenaModel.Drv.runDriver ({} : IdenaModel.Drv.C20.DSt) IdenaModel.Drv.C20.stepLine
